@@ -129,7 +129,13 @@ class RSpace(object):
             self.W = (np.concatenate([self.pw[i] * p.W
                                       for i, p in enumerate(self.parts)])
                       if n else np.zeros(0))
-            self.is_power = n >= 1 and all(p == pds[0] for p in pds)
+            # a power space for the library: built as base^n, or equal
+            # parts (array weightings compare by identity, so separately
+            # built array-weighted parts are *not* equal)
+            self.is_power = n >= 1 and (
+                sd.get('power') is not None or
+                (all(p == pds[0] for p in pds) and
+                 not self.parts[0].has_array_weighting()))
         else:
             self.parts = None
             self.pw = None
